@@ -195,14 +195,19 @@ def ship(recs, pq):
         if "blob" not in r:
             continue
         g = _groups(r["q"])
+        # collections over EQUAL source data (tag "backend") are loaded together on purpose: per-frame state must not be
+        # shared between the rebuilt wrappers of one receiving process
+        together = "backend" in sp.flags(r["q"]).get("tags", [])
         for b in batches:
+            if b.get("together", False) != together or (together and b["form"] != r["form"]):
+                continue
             if len(b["items"]) < 9 and r["q"] not in b["qs"] and not (g & b["groups"]):
                 b["items"].append(r)
                 b["qs"].add(r["q"])
                 b["groups"] |= g
                 break
         else:
-            batches.append({"items": [r], "qs": {r["q"]}, "groups": set(g)})
+            batches.append({"items": [r], "qs": {r["q"]}, "groups": set(g), "together": together, "form": r["form"]})
 
     def run(b):
         job = {"kind": "unpickle", "pq": pq, "items": [{"id": r["id"], "blob": r["blob"], "sort_rows": r["sort_rows"]} for r in b["items"]]}
